@@ -141,11 +141,16 @@ CHECKS = {
     },
     "C16": {
         "level": "exploration",
-        "rule": "one case = seeded dataset (family in {uniform sphere, Gaussian clusters, low-dimensional manifold} x metric x dimension in "
-                "{8,16,32,64} x size in {500,1000[,2000,5000 thorough]}) reached by 4 routes (online inserts, bulk build, heavy delete + "
-                "tombstone compaction, recovery rebuild); 200 queries per dataset; mean recall@10 vs f64 brute force must be >= 0.80 on every "
-                "route and no route more than 0.10 below the best; every 4th query is repeated twice on the unchanged collection and must "
-                "return identical distances and identical ids outside exact ties. distinct_nontrivial = distinct datasets",
+        "rule": "one case = seeded dataset (family in {uniform sphere, Gaussian clusters (16 clusters sigma 0.25; variants: 4 large clusters, "
+                "tight sigma 0.1, loose sigma 0.5), low-dimensional manifold} x metric x dimension in {8,16,32,64} x size in {500,1000 "
+                "[,2000,5000 thorough]; the quick slice adds ten 5000-vector clustered datasets}) reached by 5 routes (online inserts, bulk build, "
+                "heavy delete + tombstone compaction, recovery rebuild, and heavy delete with the tombstones still present); two groups of "
+                "200 queries per dataset (perturbed members; held-out points of the SAME draw, i.e. same cluster centres / manifold basis); "
+                "recall@10 vs f64 brute force (exact-tie tolerant) of the WEAKER group must be >= 0.80 on every route, and none of the four "
+                "routes the property names may be more than 0.10 below the best (the tombstones-present route is judged on the floor only); "
+                "every 4th query is repeated twice on the unchanged collection and must return identical distances and identical ids outside "
+                "exact ties. Measured on the unchanged tree: >= 0.999 on the named routes, >= 0.98 with tombstones. distinct_nontrivial = "
+                "distinct datasets",
         "legs": [{"name": "recall-determinism", "argv": ["c16"], "shards": 16, "timeout_q": 1800, "timeout_t": 14400}],
         "assumptions": COMMON_ASSUME + ["default index parameters (M=16, ef_construction=200, adaptive ef_search)", "the floor 0.80 and the route tolerance 0.10 are the property's own numbers"],
         "min_evaluations": 8,
